@@ -23,9 +23,11 @@ LEVEL_TEXT = ("Machine-checked proof (Coq, closed under the global context) over
               "buffered_pipe.py every run by executing all interleavings of small programs on the real class under "
               "a deterministic scheduler and comparing every step with the model run on the same schedule.")
 LEVEL_NOTE = ("Trusted: Coq kernel + vm_compute; the identification of the model's atomic actions with the source's "
-              "critical sections (checked by the scheduler-driven correspondence and a lock-discipline oracle, not "
-              "proved); CPython threading primitives replaced by instrumented fakes on the instance under test; "
-              "times are integer ticks (floats with integer values in the implementation).")
+              "critical sections is checked, not proved: dynamically (every read/write of _buffer/_closed/_event on "
+              "the instance goes through hooks that require the instrumented lock to be held by the running thread; "
+              "an unlocked access is a violation and adds switch points so the lossy schedule is found) and "
+              "statically (gen/c26.py, fail-closed); CPython threading primitives replaced by instrumented fakes on "
+              "the instance under test; times are integer ticks (floats with integer values in the implementation).")
 TECHNIQUE = "Coq proof (invariants over all interleavings, Lib/Sched.v) + deterministic-scheduler correspondence"
 GENS = ["c26"]
 
@@ -80,6 +82,11 @@ class FakeLock:
         self.acquires = 0
 
     def acquire(self, blocking=True, timeout=-1):
+        ex = self.ex
+        if ex.dirty.get(ex.cur) and not ex.stop:
+            # this operation already touched shared state without the lock: whatever it read may be
+            # stale by the time it gets the lock, so other threads may run here
+            ex.pause(ex.cur, "lock acquire after an unlocked access")
         if self.owner is not None:
             self.ex.problems.append("lock acquired while held")
             raise RuntimeError("lock acquired while held (would deadlock)")
@@ -88,6 +95,9 @@ class FakeLock:
         return True
 
     def release(self):
+        if self.ex.stop:
+            self.owner = None
+            return
         if self.owner is None or self.owner != self.ex.cur:
             self.ex.problems.append("release of a lock not held")
             raise RuntimeError("release unlocked lock")
@@ -147,6 +157,32 @@ class FakeCV:
         self.notify(1 << 30)
 
     notifyAll = notify_all
+
+
+WATCHED = ("_buffer", "_closed", "_event")
+_WATCHED_CLASSES = {}
+
+
+def watch(pipe, ex):
+    """Route every read / write of the pipe's shared attributes through ex.access(name), by giving
+    the instance a subclass with attribute hooks (the class under test itself is not modified)."""
+    base = type(pipe)
+    cls = _WATCHED_CLASSES.get(base)
+    if cls is None:
+        class Watched(base):
+            def __getattribute__(self, name):
+                if name in WATCHED:
+                    object.__getattribute__(self, "_c26_ex").access(name)
+                return base.__getattribute__(self, name)
+
+            def __setattr__(self, name, value):
+                if name in WATCHED:
+                    object.__getattribute__(self, "_c26_ex").access(name)
+                base.__setattr__(self, name, value)
+
+        cls = _WATCHED_CLASSES[base] = Watched
+    object.__setattr__(pipe, "_c26_ex", ex)
+    pipe.__class__ = cls
 
 
 class Pool:
@@ -223,6 +259,11 @@ class Exec:
         self.lock = FakeLock(self)
         self.pipe._lock = self.lock
         self.pipe._cv = FakeCV(self, self.lock)
+        self.paused = {}        # tid -> why (thread parked at an extra switch point)
+        self.dirty = {}         # tid -> the running operation has touched shared state unlocked
+        self.unlocked = []      # (attribute, action) of unlocked accesses not yet reported
+        self.unmodelled = False
+        watch(self.pipe, self)
         self.orc = Oracle(ctx, programs)
         self.sched, self.actions, self.trace, self.siblings = [], [], [], []
         self.pending = None
@@ -233,6 +274,31 @@ class Exec:
     def tick(self):
         self._seq += 1
         return self._seq
+
+    def access(self, name):
+        """Called (from the running worker) before every read / write of a shared attribute."""
+        if self.stop:
+            return
+        i = self.cur
+        if self.lock.owner == i:
+            return
+        self.dirty[i] = True
+        self.unlocked.append((name, self.pending[1]))
+        self.pause(i, "before an unlocked access to %s" % name)
+
+    def pause(self, i, why):
+        """Extra switch point inside an operation (only reached by code that breaks the lock
+        discipline): hand the turn to the scheduler; resumed by a (tid, "resume") step."""
+        self.paused[i] = why
+        self.unmodelled = True
+        nxt = self.complete(i, ("paused", why))
+        if nxt != i:
+            if nxt is not None:
+                self.pool.go[nxt].release()
+            self.pool.go[i].acquire()
+        self.paused.pop(i, None)
+        if self.stop:
+            raise _Abort()
 
     def perform(self, op):
         k = op[0]
@@ -259,6 +325,9 @@ class Exec:
         out = []
         wide = self.wide
         for i in range(len(self.programs)):
+            if i in self.paused:
+                out.append((i, "resume"))
+                continue
             w = self.waiting.get(i)
             if w is not None:
                 rem = w["timeout"]
@@ -299,12 +368,15 @@ class Exec:
             c = ch[k]
         tid, dt = c
         w = self.waiting.get(tid)
-        if w is not None:
+        if tid in self.paused:
+            action, op = ("Resume",), None
+        elif w is not None:
             _CLOCK[0] = w["then"] + float(dt)
             action, op = ("AWake", dt), None
         else:
             op = self.programs[tid][self.started[tid]]
             self.started[tid] += 1
+            self.dirty[tid] = False
             action = op_action(op)
         self.cur = tid
         self.pending = (c, action, op, self.lock.acquires)
@@ -316,7 +388,7 @@ class Exec:
         and returns the thread that has to run it (None = finished; main has been woken)."""
         try:
             c, action, op, before = self.pending
-            if res[0] not in ("blocked", "exc"):
+            if res[0] not in ("blocked", "exc", "paused"):
                 if self.lock.owner is not None:
                     self.problems.append("lock still held after %r" % (action,))
                 if op is not None and self.lock.acquires == before:
@@ -343,7 +415,8 @@ class Exec:
 
     def final(self):
         ev = self.event
-        return {"buffer": self.pipe._buffer.tobytes(), "closed": bool(self.pipe._closed),
+        st = vars(self.pipe)       # the harness's own look at the state bypasses the access hooks
+        return {"buffer": st["_buffer"].tobytes(), "closed": bool(st["_closed"]),
                 "has_event": ev is not None, "event_set": bool(ev is not None and ev.is_set())}
 
     def run(self):
@@ -361,7 +434,7 @@ class Exec:
             raise self.error
         blocked = sorted(self.waiting)
         self.stop = True
-        for j in blocked:
+        for j in sorted(set(blocked) | set(self.paused)):
             self.cur = j
             self.lock.owner = None
             p.go[j].release()
@@ -392,6 +465,8 @@ def enc_result(res):
         return [-13]
     if k == "emptied":
         return [-14] + list(res[1])
+    if k == "paused":
+        return [-98]
     return [-99]
 
 
@@ -405,10 +480,14 @@ class Oracle:
         self.got = b""
         self.closed = False
         self.cur_read = {}      # tid -> (n, timeout) of the read in progress
+        self.inflight = {}      # tid -> action of a non-read operation that has started
+        self.desync = False     # data already lost / duplicated: byte accounting no longer meaningful
         self.steps = []
         self.failed = False
 
     def fail(self, key, what, expected=None, observed=None):
+        if self.desync and key not in ("fifo", "unlocked-state-access", "lock-discipline", "hang"):
+            return      # consequence of the loss / duplication already reported for this execution
         self.failed = True
         self.ctx.fail(key, what, case={"programs": self.programs, "schedule": list(self.steps)},
                       expected=expected, observed=observed)
@@ -419,10 +498,16 @@ class Oracle:
         k = res[0]
         if action[0] == "ARead":
             self.cur_read[tid] = (action[1], None if action[2] is None else action[2][1])
-        if action[0] == "AFeed":
-            self.fed += bytes(action[1])
-        if action[0] == "AClose" and k == "done":
-            self.closed = True
+        # feed / close take effect when the operation completes (it may be parked at an extra
+        # switch point first; its original action is remembered)
+        if action[0] in ("AFeed", "AClose", "AEmpty", "ASetEvent"):
+            self.inflight[tid] = action
+        if k not in ("paused", "blocked"):
+            act0 = self.inflight.pop(tid, action)
+            if act0[0] == "AFeed" and k == "done":
+                self.fed += bytes(act0[1])
+            if act0[0] == "AClose" and k == "done":
+                self.closed = True
         if k == "exc":
             self.fail("unexpected-exception", "%s raised %s" % (action[0], res[1]), observed=res[1])
         elif k == "ret":
@@ -453,14 +538,24 @@ class Oracle:
                           "or the pipe was closed")
             if t == 0 and action[0] == "ARead":
                 self.fail("blocked-zero-timeout", "read(timeout=0) blocked")
+        for name, act in ex.unlocked:
+            self.fail("unlocked-state-access",
+                      "%s touches self.%s without holding self._lock (the operation is not atomic: other threads "
+                      "can run between that access and the locked part)" % (act[0], name))
+        del ex.unlocked[:]
+        if ex.paused:
+            return      # an operation is parked half-way: the state rules are checked when none is
         # FIFO so far: what has been delivered is a prefix of what has been fed
         if not self.fed.startswith(self.got):
             self.fail("fifo", "delivered data is not a prefix of the fed data", expected=self.fed,
                       observed=self.got)
+            self.desync = True
         # buffered data must be exactly the undelivered suffix
-        buf = ex.pipe._buffer.tobytes()
+        buf = vars(ex.pipe)["_buffer"].tobytes()
         if self.got + buf != self.fed:
-            self.fail("fifo", "delivered ++ buffered != fed", expected=self.fed, observed=self.got + buf)
+            self.fail("fifo", "delivered ++ buffered != fed (data lost, duplicated or reordered)",
+                      expected=self.fed, observed=self.got + buf)
+            self.desync = True
         # no lost wake-up: once data is buffered or the pipe closed every blocked reader is notified
         avail = len(self.fed) - len(self.got)
         if avail > 0 or self.closed:
@@ -499,8 +594,8 @@ def run_schedule(ctx, programs, prefix, extend=None, wide=False):
     fin = ex.orc.finish(ex)
     trace = ex.trace + [-1] + list(fin["buffer"]) + [-2, int(fin["closed"]), int(fin["has_event"]),
                                                     int(fin["has_event"] and fin["event_set"])]
-    return {"ok": True, "oracle": ex.orc, "actions": ex.actions, "trace": trace, "schedule": ex.sched,
-            "siblings": ex.siblings, "final": fin, "blocked": blocked}
+    return {"ok": True, "modelled": not ex.unmodelled, "oracle": ex.orc, "actions": ex.actions, "trace": trace,
+            "schedule": ex.sched, "siblings": ex.siblings, "final": fin, "blocked": blocked}
 
 
 def explore(ctx, programs, cap):
@@ -606,7 +701,7 @@ def check_programs(ctx, programs, cap, rng, work, label, nsample):
     for r in leaves:
         nontrivial = any(a[1][0] in ("AWake", "ARead") for a in r["actions"]) and len(r["actions"]) > 1
         ctx.count((programs, r["schedule"]), nontrivial=nontrivial, kind=label)
-    good = [r for r in leaves if r["ok"]]
+    good = [r for r in leaves if r["ok"] and r["modelled"]]
     if exhaustive and len(good) == len(leaves):
         work.exhaustive_sets += 1
         total = 0
@@ -668,8 +763,9 @@ def run(ctx):
                 "than one step.")
     ctx.trusted += ["model coq/Model/C26.v is hand-written; tied to paramiko/buffered_pipe.py by the scheduler-driven "
                     "differential run (vm_compute of the model's own step function) and gen/c26.py (shape of feed())",
-                    "atomicity of critical sections: the instrumented lock checks acquire/release discipline per "
-                    "operation; accesses outside the lock would not be seen",
+                    "atomicity of critical sections: checked per operation by the instrumented lock and by access "
+                    "hooks on _buffer/_closed/_event (an access without the lock is reported and becomes a switch "
+                    "point); state reached only through other attributes or globals would not be seen",
                     "threading.Lock/Condition replaced on the instance by instrumented fakes with Condition's "
                     "documented semantics (wait releases the lock and returns when notified or timed out; no "
                     "spurious wake-ups are scheduled for un-timed waits)",
@@ -707,13 +803,13 @@ def _run(ctx, rng):
         for j in range(3):
             r = random_walk(ctx, programs, rng)
             ctx.count((programs, r["schedule"]), nontrivial=len(r["actions"]) > 3, kind="long-%dthr" % nthreads)
-            if r["ok"] and j == 0:
+            if r["ok"] and r["modelled"] and j == 0:
                 work.explicit.append((programs, r))
     # deterministic regression: a feed landing exactly at the deadline must be delivered
     programs = [[("feed", b"abc")], [("read", 10, 5)]]
     r = run_schedule(ctx, programs, [(1, None), (0, None), (1, 5)])
     ctx.count(("deadline", programs), kind="deadline")
-    if r["ok"]:
+    if r["ok"] and r["modelled"]:
         work.explicit.append((programs, r))
     compare_digests(ctx, work)
     compare_explicit(ctx, work.explicit)
@@ -740,7 +836,7 @@ def replay(ctx, rep):
         r = run_schedule(ctx, programs, sched)
         ctx.count((programs, sched), kind="replay")
         ctx.log("replay: %s; steps %r" % ("completed" if r["ok"] else r.get("why"), r["actions"]))
-        if r["ok"]:
+        if r["ok"] and r["modelled"]:
             compare_explicit(ctx, [(programs, r)])
         ctx.count(("replay2", programs, sched), kind="replay")
     finally:
